@@ -265,6 +265,7 @@ func (i *Inst) know(a common.Address) {
 type State struct {
 	N    *sim.Node
 	Dest *int // overrides the recipient of the next operation's arguments (sandwich blocks)
+	Rcpt []byte // argument classes "toself" / "tosender": the recipient is the contract itself / the transaction's sender
 	I    Inst
 	Last []acctJ // projection after the last emitted line (nil: a Reset is needed)
 }
@@ -428,6 +429,9 @@ func (x *Exec) validArgs(s *State, kind, m string, v int) [][]byte {
 	five := sim.Dna(5, 1).Bytes()
 	// the recipient of DNA moved by the operation (sandwich blocks choose it)
 	rcpt := func(def int) []byte {
+		if s.Rcpt != nil {
+			return s.Rcpt
+		}
 		if s.Dest != nil {
 			return w.Addrs[*s.Dest].Bytes()
 		}
@@ -445,7 +449,7 @@ func (x *Exec) validArgs(s *State, kind, m string, v int) [][]byte {
 	case "multisig.add":
 		return [][]byte{pick(w.Addrs[kVoter].Bytes(), w.Addrs[kVoter2].Bytes(), w.Addrs[kVoter].Bytes())}
 	case "multisig.send", "multisig.push":
-		return [][]byte{pick(w.Addrs[kR1].Bytes(), w.Addrs[kR2].Bytes(), w.Addrs[kR1].Bytes()), pick(five, five, overAmount.Bytes())}
+		return [][]byte{pick(rcpt(kR1), w.Addrs[kR2].Bytes(), w.Addrs[kR1].Bytes()), pick(five, five, overAmount.Bytes())}
 	case "oraclelock.deploy":
 		return [][]byte{s.I.OV.Bytes(), pick([]byte{1}, []byte{2}, []byte{1}), w.Addrs[kR1].Bytes(), w.Addrs[kR2].Bytes()}
 	case "refundlock.deploy":
@@ -471,7 +475,7 @@ func (x *Exec) validArgs(s *State, kind, m string, v int) [][]byte {
 	case "sum._sum":
 		return [][]byte{u64(5)}
 	case "erc20.transfer":
-		return [][]byte{w.Addrs[kR1].Bytes(), pick(big.NewInt(777).Bytes(), big.NewInt(1).Bytes(), overAmount.Bytes())}
+		return [][]byte{rcpt(kR1), pick(big.NewInt(777).Bytes(), big.NewInt(1).Bytes(), overAmount.Bytes())}
 	case "erc20.approve":
 		return [][]byte{w.Addrs[kOther].Bytes(), pick(big.NewInt(500).Bytes(), big.NewInt(1).Bytes(), overAmount.Bytes())}
 	case "erc20.transferFrom":
@@ -480,7 +484,7 @@ func (x *Exec) validArgs(s *State, kind, m string, v int) [][]byte {
 		// (owner, root): a wallet owned by its deployer; variant 2: root = the deployer as well
 		return [][]byte{w.Addrs[x.sender(s, Op{Who: "owner"})].Bytes(), pick(w.Addrs[kSetup].Bytes(), w.Addrs[x.sender(s, Op{Who: "owner"})].Bytes(), w.Addrs[kSetup].Bytes())}
 	case "sft.transferTo":
-		return [][]byte{w.Addrs[kR1].Bytes(), pick(big.NewInt(100).Bytes(), big.NewInt(1).Bytes(), overAmount.Bytes())}
+		return [][]byte{rcpt(kR1), pick(big.NewInt(100).Bytes(), big.NewInt(1).Bytes(), overAmount.Bytes())}
 	case "payer.relay", "payer.relayboom", "payer.relayhop":
 		return [][]byte{pick(s.I.Inc.Bytes(), s.I.Inc.Bytes(), s.I.Inc.Bytes()), pick(part.Bytes(), []byte{}, new(big.Int).Add(bal, common.DnaBase).Bytes())}
 	case "payer.spawn", "payer.spawnlow", "payer.payspawn":
@@ -508,6 +512,15 @@ func (x *Exec) args(s *State, kind string, op Op) [][]byte {
 		return x.validArgs(s, kind, op.M, 2)
 	case "over":
 		return x.validArgs(s, kind, op.M, 3)
+	case "toself", "tosender":
+		// well-formed, but the coins go to the contract's own address / back to the sender of the transaction
+		if op.Arg == "toself" && s.I.Addr != nil {
+			s.Rcpt = s.I.Addr.Bytes()
+		} else {
+			s.Rcpt = x.W.Addrs[x.sender(s, op)].Bytes()
+		}
+		defer func() { s.Rcpt = nil }()
+		return x.validArgs(s, kind, op.M, 1)
 	case "missing":
 		return nil
 	case "garbage":
@@ -626,12 +639,33 @@ func (x *Exec) target(s *State) *common.Address {
 
 // priceTx signs the transaction with maxFee = size fee + g * feePerGas (fixpoint on the size).
 func (x *Exec) priceTx(n *sim.Node, spec *sim.TxSpec, g uint64) *types.Transaction {
+	return x.priceTxRem(n, spec, g, "")
+}
+
+// priceTxRem: the maximum fee is NOT a whole number of gas units - on top of g units it carries a remainder of exactly
+// half a unit ("smallhalf": the tie of any rounding) or of one unit less one base unit ("smallrem"): what a maximum fee
+// buys is the truncated quotient.
+func (x *Exec) priceTxRem(n *sim.Node, spec *sim.TxSpec, g uint64, class string) *types.Transaction {
 	fpg := n.App.State.FeePerGas()
+	rem := new(big.Int)
+	switch class {
+	case "smallhalf":
+		rem.Rsh(fpg, 1)
+		if new(big.Int).Lsh(rem, 1).Cmp(fpg) < 0 {
+			rem.Add(rem, big.NewInt(1)) // odd rate: the smallest remainder of at least half a unit
+		}
+	case "smallrem":
+		rem.Sub(fpg, big.NewInt(1))
+	}
+	if rem.Sign() > 0 {
+		x.Stats["maxfee_with_gas_remainder"]++
+	}
 	spec.MaxFee = sim.Dna(1, 1)
 	var tx *types.Transaction
 	for i := 0; i < 6; i++ {
 		tx = x.W.Tx(*spec)
 		want := new(big.Int).Add(n.SizeFee(tx), new(big.Int).Mul(fpg, new(big.Int).SetUint64(g)))
+		want.Add(want, rem)
 		if want.Cmp(spec.MaxFee) == 0 {
 			return tx
 		}
@@ -648,7 +682,7 @@ func (x *Exec) gasFor(class string, need uint64) uint64 {
 	switch class {
 	case "zero":
 		return 0
-	case "small":
+	case "small", "smallhalf", "smallrem":
 		if need <= 1 {
 			return 0
 		}
@@ -914,7 +948,7 @@ func (x *Exec) run(s *State, kind string, op Op, caseID int, step int) bool {
 		plan = append(plan, planned{tx: prefund, plain: true, role: "mid"})
 		x.Stats["prefunded_same_block"]++
 	}
-	plan = append(plan, planned{tx: x.priceTx(n, spec, g), kind: kind, role: role})
+	plan = append(plan, planned{tx: x.priceTxRem(n, spec, g, op.Gas), kind: kind, role: role})
 	nonce++
 	if tail != "" {
 		// something changes a balance OUTSIDE the contract environment ...
